@@ -78,6 +78,10 @@ CHECKS['C05']['text'] += ' Proved: after every submit and wait no future is pend
 CHECKS['C11']['text'] += ' Proved: a worker dead at the start of wait() has a finished future (TaskDiedError unless its result was queued) and no slot when it returns (C11_dead_detected, under the executor invariant running_not_done which is checked on the runs).'
 for _k in ('C04', 'C05', 'C11', 'C10'):
     CHECKS[_k]['note'] = CHECKS[_k]['note'] + SCHED_L2
+CHECKS['C19'] = dict(
+    text='Proved: worker side, for every output script, each logger call is queued once in order, the fragments written to a stream are exactly the fragments of the captured records (each once, in order) and nothing is left to the exit-time flush (C19_worker_exactly_once; flush behaviour and end-of-task flush extracted); caller side, for every interleaving of record puts, result hand-overs and wait() halves, the records handled when the loop exits are exactly the records put, each once, in order, whichever task finished last (C19_caller_exactly_once; second log-queue drain extracted); each ingredient is necessary (C19_refuted_without). PARTIAL: cross-queue ordering (a synchronous put on the log queue before the put on the result queue is visible to the parent in that order) is multiprocessing.Manager behaviour, sampled by real fork/spawn runs with a collecting handler and gate-chosen last finisher.',
+    design='6/C19', technique='Coq proofs over worker proxy model and caller timeline model + differential test of LoggerFileProxy + real-run sampling',
+    note='Theorems are about Model/Log.v. Tie: Gen/SrcParams.v (LoggerFileProxy.flush clears?, streams flushed in _subprocess_func finally?, _consume_log_queue after executor.wait?), correspondence of the real LoggerFileProxy with the worker model, real runs. Print Assumptions: closed.')
 NOT_YET = {}
 
 
